@@ -513,9 +513,14 @@ def check(prog, rep):
     # "same instant, duration and data": what the legacy store decodes and the new store encodes (tables and scale constants)
     codec_sqlite(prog, rep)
     codec_peewee(prog, rep)
+    # "same id and metadata": what create_bucket of the new store is given comes back under the same keys, the id unchanged
+    from .c05 import field_tables
+
+    field_tables(prog, rep)
 
 
 VARIANTS = [
+    ("B the new store normalises bucket ids (NFC) before storing them", "aw_datastore/storages/sqlite.py", "        data: Optional[dict] = None,\n    ):\n        self.conn.execute(\n            \"INSERT INTO buckets(", "        data: Optional[dict] = None,\n    ):\n        import unicodedata\n        bucket_id = unicodedata.normalize(\"NFC\", bucket_id)\n        self.conn.execute(\n            \"INSERT INTO buckets(", "FIELDS"),
     ("B shared peewee handle initialised only while still deferred", "aw_datastore/storages/peewee.py", "        self.db.init(filepath)\n", "        if self.db.deferred:\n            self.db.init(filepath)\n", "LEGACY-OPEN"),
     {"name": "B insert_many upserts by a global id-exists test and the migration keeps the legacy ids", "edits": [("aw_datastore/migration.py", "        for event in bucket_events:\n            event.id = None\n", ""), ("aw_datastore/storages/sqlite.py", "        events_upsert = [e for e in events if e.id is not None]", "        known = {e.id for e in events if e.id is not None and self.conn.execute(\"SELECT 1 FROM events WHERE id = ?\", [e.id]).fetchone() is not None}\n        events_upsert = [e for e in events if e.id in known]"), ("aw_datastore/storages/sqlite.py", "        events_insert = [e for e in events if e.id is None]", "        events_insert = [e for e in events if e.id not in known]")], "expect": "ID-TYPESTATE"},
     ("B data not forwarded (original defect)", MG, '            bucket["name"],\n            bucket["data"],\n', '            bucket["name"],\n', "COVERAGE"),
